@@ -392,18 +392,24 @@ func (c *verifC19Chain) SubscribeChainHeadEvent(ch chan<- ChainHeadEvent) event.
 	c.sub = &verifC19Sub{err: make(chan error)}
 	return c.sub
 }
-func (c *verifC19Chain) IsGenesisHash(hash common.Hash) bool                           { return false }
-func (c *verifC19Chain) CheckIfEtxIsEligible(common.Hash, common.Location) bool        { return true }
-func (c *verifC19Chain) Engine(header *types.WorkObjectHeader) consensus.Engine        { return nil }
-func (c *verifC19Chain) GetHeaderOrCandidateByHash(h common.Hash) *types.WorkObject    { return c.w.blocks[h] }
-func (c *verifC19Chain) NodeCtx() int                                                  { return common.ZONE_CTX }
-func (c *verifC19Chain) GetHeaderByHash(h common.Hash) *types.WorkObject               { return c.w.blocks[h] }
-func (c *verifC19Chain) GetBlockByHash(h common.Hash) *types.WorkObject                { return c.w.blocks[h] }
-func (c *verifC19Chain) GetMaxTxInWorkShare() uint64                                   { c.runs.Add(1); return 1000 }
-func (c *verifC19Chain) CheckInCalcOrderCache(common.Hash) (*big.Int, int, bool)       { return nil, 0, false }
-func (c *verifC19Chain) AddToCalcOrderCache(common.Hash, int, *big.Int)                {}
-func (c *verifC19Chain) CalcBaseFee(wo *types.WorkObject) *big.Int                     { return wo.BaseFee() }
-func (c *verifC19Chain) CalcOrder(*types.WorkObject) (*big.Int, int, error)            { return big.NewInt(0), common.ZONE_CTX, nil }
+func (c *verifC19Chain) IsGenesisHash(hash common.Hash) bool                    { return false }
+func (c *verifC19Chain) CheckIfEtxIsEligible(common.Hash, common.Location) bool { return true }
+func (c *verifC19Chain) Engine(header *types.WorkObjectHeader) consensus.Engine { return nil }
+func (c *verifC19Chain) GetHeaderOrCandidateByHash(h common.Hash) *types.WorkObject {
+	return c.w.blocks[h]
+}
+func (c *verifC19Chain) NodeCtx() int                                    { return common.ZONE_CTX }
+func (c *verifC19Chain) GetHeaderByHash(h common.Hash) *types.WorkObject { return c.w.blocks[h] }
+func (c *verifC19Chain) GetBlockByHash(h common.Hash) *types.WorkObject  { return c.w.blocks[h] }
+func (c *verifC19Chain) GetMaxTxInWorkShare() uint64                     { c.runs.Add(1); return 1000 }
+func (c *verifC19Chain) CheckInCalcOrderCache(common.Hash) (*big.Int, int, bool) {
+	return nil, 0, false
+}
+func (c *verifC19Chain) AddToCalcOrderCache(common.Hash, int, *big.Int) {}
+func (c *verifC19Chain) CalcBaseFee(wo *types.WorkObject) *big.Int      { return wo.BaseFee() }
+func (c *verifC19Chain) CalcOrder(*types.WorkObject) (*big.Int, int, error) {
+	return big.NewInt(0), common.ZONE_CTX, nil
+}
 
 // ---------------------------------------------------------------------------------------------
 // owned pool (part 1)
